@@ -515,7 +515,11 @@ fn parse_token(
                 // a unary suffix node is already complete, whatever follows it can only take it as a left operand
                 // (a side effect block still attaches to the expression it follows)
                 let completed_suffix = n.secondary_definition == SecondaryDefinition::UnarySuffix && definition != Definition::SideEffect;
-                let stop = !completed_suffix && (my_priority < their_priority || my_priority == their_priority && right_to_left);
+                // a side effect block after a closed group or nested expression follows it, it does not move inside
+                let closed_group = definition == Definition::SideEffect
+                    && !is_our_group
+                    && (n.definition == Definition::Group || n.definition == Definition::NestedExpression);
+                let stop = !completed_suffix && !closed_group && (my_priority < their_priority || my_priority == their_priority && right_to_left);
 
                 // need to find node with higher priority and stop before it
                 if stop || is_our_group {
@@ -954,11 +958,6 @@ pub fn parse(lex_tokens: &Vec<LexerToken>) -> Result<ParseResult, CompilerError>
                         trace!("Changing last left to side effect's parent {:?}", node.parent);
                         last_left = node.parent;
 
-                        last_left.and_then(|p| nodes.get(p)).and_then(|node| {
-                            // need to update prev def as well for composition check
-                            previous_second_def = node.secondary_definition;
-                            Some(())
-                        });
                     }
                 }
             },
@@ -1006,7 +1005,11 @@ pub fn parse(lex_tokens: &Vec<LexerToken>) -> Result<ParseResult, CompilerError>
         }
 
         // done with previous, can update now
-        previous_second_def = secondary_definition;
+        // (after a side effect block the previous token is the one before the block)
+        previous_second_def = match secondary_definition {
+            SecondaryDefinition::EndSideEffect => previous_significant_def,
+            _ => secondary_definition,
+        };
 
         let (definition, parent, left, right) = match secondary_definition {
             SecondaryDefinition::None => implementation_error("Secondary definition of none shouldn't reach check.".to_string())?,
